@@ -103,6 +103,26 @@ def judge(case):
     nat1 = sum(sc.neighbourhood(e_) for e_ in np.eye(3, dtype=int))[:, :, None] * np.ones(3)
     if rel("gradient of the basis functions", g0, g1, [(D, 0), (QT, 2)], nat=nat1):
         return v
+    # second and third derivatives of the basis functions as rank-2 / rank-3 tensors (any orthogonal Q)
+    import itertools
+
+    for rank in (2, 3):
+        def tensor(b, p, rank=rank):
+            out = np.zeros((g1.shape[0], len(p)) + (3,) * rank)
+            for idx in itertools.combinations_with_replacement(range(3), rank):
+                o = np.zeros(3, dtype=int)
+                for k in idx:
+                    o[k] += 1
+                val = lib(evaluate_deriv_basis, b, p, o)
+                for perm in set(itertools.permutations(idx)):
+                    out[(slice(None), slice(None)) + perm] = val
+            return out
+
+        t1, t0 = tensor(b1, p1), tensor(b0, p0)
+        natk = sum(sc.neighbourhood(o) for o in itertools.product(range(rank + 1), repeat=3) if sum(o) == rank)
+        if rel(f"rank-{rank} derivative tensor of the basis functions", t0, t1, [(D, 0)] + [(QT, 2 + k) for k in range(rank)],
+               nat=natk.reshape(natk.shape + (1,) * rank) * np.ones(t1.shape)):
+            return v
     if exact:
         o1 = np.array(env["deriv_order"], dtype=int)  # order in the moved frame
         perm = [int(np.argmax(np.abs(Q[j]))) for j in range(3)]
